@@ -17,7 +17,7 @@ func init() {
 		Explain: "E1 must-check/fail-closed on the verifier entry points found by interface ((*verifier).Verify / VerifyBlob, notation.VerifyBlob): " +
 			"every success-capable exit that is not behind the level==skip gate is reachable only through the passing edges of " +
 			"ParseEnvelope(err==nil), Envelope.Verify(err==nil), payload content type == envelope.MediaTypePayloadV1, json.Unmarshal(Payload.Content -> *envelope.Payload)(err==nil), " +
-			"content.Equal(signed target, desc parameter) for OCI; for blobs the algorithm-table lookup keyed by the signature algorithm's hash, the descriptor generator applied to that digest algorithm, " +
+			"content.Equal(signed target, desc parameter) for OCI; for blobs the algorithm-table lookup keyed by the signature algorithm's hash (the package-level map, or a module function recognised as such a table by what its passing returns deliver — extra_c01.go, algTable), the descriptor generator applied to that digest algorithm, " +
 			"Digest and Size equality with the signed target and a media-type equality that can be bypassed only by desc.MediaType==\"\"; required user metadata: the metadata check's err==nil edge " +
 			"(bypassed only by len(UserMetadata)==0) and, inside it, a per-entry comma-ok lookup and value equality over the caller's map with no early success; " +
 			"soft failures are sticky (a later store of a possibly-nil value into outcome.Error re-opens the exit and is reported); " +
@@ -216,19 +216,52 @@ func c01BlobBinding(c *Ctx, fn *ssa.Function, fi *FnInfo, sum *Summary, ta, outc
 	w := c.W
 	q := regexp.QuoteMeta
 	hash := `call:\(core/internal/algorithm\.Algorithm\)\.Hash\((` + q(outcomeDesc) + `\.EnvelopeContent\.SignerInfo\.SignatureAlgorithm|…)\)`
-	lookup := `global:ngo/verifier\.` + q(w.globalWhere("verifier", isHashDigestMap)) + `\[` + hash + `\]`
-	gen := `call:dyn:` + q(paramWhere(fn, isFuncType)) + `\(` + lookup + `\)`
 	both := func(a, b string) string { return `(` + a + `,` + b + `|` + b + `,` + a + `)` }
-	c.requireOnExits("blob", fn, sum.Exits, []Need{
-		{Name: "algorithm-lookup", What: "digest algorithm = algorithms[hash of the signature algorithm of the verified envelope], lookup miss fail-closed",
-			Re: regexp.MustCompile(`^T\(ok\(` + lookup + `\)\)$`)},
-		{Name: "generator", What: "descriptor generator applied to that digest algorithm, err == nil",
-			Re: regexp.MustCompile(`^EQ\(` + gen + `#err,nil\)$`)},
-		{Name: "digest-equal", What: "generated descriptor Digest == signed target Digest",
-			Re: regexp.MustCompile(`^EQ\(` + both(gen+`#0\.Digest`, q(ta)+`\.Digest`) + `\)$`)},
-		{Name: "size-equal", What: "generated descriptor Size == signed target Size",
-			Re: regexp.MustCompile(`^EQ\(` + both(gen+`#0\.Size`, q(ta)+`\.Size`) + `\)$`)},
-	})
+	// The ways in which the digest algorithm may be obtained from that hash (extra_c01.go): the package-level table indexed
+	// here (or through a helper that only returns the lookup), or a module function that is such a table. Each way names
+	// the value and the fact "the table knew the hash"; all obligations below are stated on one and the same way.
+	mapLookup := `global:` + c01HashDigestMaps(w) + `\[` + hash + `\]`
+	var mapPass []string
+	for _, l := range append(c01TruthLabels("ok(\x00)"), "NE(\x00,const:\"\")") {
+		mapPass = append(mapPass, strings.ReplaceAll(q(l), "\x00", mapLookup))
+	}
+	derivs := []c01Deriv{{value: mapLookup, pass: strings.Join(mapPass, "|"),
+		what: "digest algorithm = algorithms[hash of the signature algorithm of the verified envelope], lookup miss fail-closed"}}
+	// (a table function's key must read as that hash in full: an abbreviated description is not accepted there)
+	hashExact := `^call:\(core/internal/algorithm\.Algorithm\)\.Hash\(` + q(outcomeDesc) + `\.EnvelopeContent\.SignerInfo\.SignatureAlgorithm\)$`
+	derivs = append(derivs, c01Engine(w).derivations(fn, sum, regexp.MustCompile(hashExact))...)
+	needsOf := func(d c01Deriv) []Need {
+		gen := `call:dyn:` + q(paramWhere(fn, isFuncType)) + `\(` + d.value + `\)`
+		return []Need{
+			{Name: "algorithm-lookup", What: d.what, Re: regexp.MustCompile(`^(` + d.pass + `)$`)},
+			{Name: "generator", What: "descriptor generator applied to that digest algorithm, err == nil",
+				Re: regexp.MustCompile(`^EQ\(` + gen + `#err,nil\)$`)},
+			{Name: "digest-equal", What: "generated descriptor Digest == signed target Digest",
+				Re: regexp.MustCompile(`^EQ\(` + both(gen+`#0\.Digest`, q(ta)+`\.Digest`) + `\)$`)},
+			{Name: "size-equal", What: "generated descriptor Size == signed target Size",
+				Re: regexp.MustCompile(`^EQ\(` + both(gen+`#0\.Size`, q(ta)+`\.Size`) + `\)$`)},
+		}
+	}
+	chosen, best := derivs[0], -1
+	for _, d := range derivs {
+		n := 0
+		for _, need := range needsOf(d) {
+			all := len(sum.Exits) > 0
+			for _, ex := range sum.Exits {
+				if _, ok := need.match(ex.Checked); !ok {
+					all = false
+				}
+			}
+			if all {
+				n++
+			}
+		}
+		if n > best {
+			chosen, best = d, n
+		}
+	}
+	gen := `call:dyn:` + q(paramWhere(fn, isFuncType)) + `\(` + chosen.value + `\)`
+	c.requireOnExits("blob", fn, sum.Exits, needsOf(chosen))
 	// media type: pass = (desc.MediaType == "") or (desc.MediaType == target.MediaType)
 	reMT := regexp.MustCompile(`^EQ\(` + both(gen+`#0\.MediaType`, q(ta)+`\.MediaType`) + `\)$`)
 	reEmpty := regexp.MustCompile(`^EQ\(` + both(gen+`#0\.MediaType`, `const:""`) + `\)$`)
